@@ -43,6 +43,7 @@ type hreq struct {
 	Ext       map[string]any
 	Header    string // value of an extra request header X-Client
 	APQ       string // "", "register", "hash-only"
+	HashOf    string // for APQ wrong-hash: the text whose hash is sent
 	Accept    string // Accept header ("" = none)
 	RawBody   string // non-empty: this exact POST body (valid JSON of the wrong shape)
 }
@@ -121,27 +122,35 @@ func pickReq(t *core.Tape) hreq {
 		r.RawBody = rawBodies[t.Choose(len(rawBodies), "raw")]
 		r.APQ = "" // the raw body is all there is
 	}
-	switch t.Choose(4, "ext") {
+	switch t.Choose(5, "ext") {
 	case 1:
 		r.Ext = map[string]any{"trace": "x1"}
 	case 2:
 		r.APQ = "register"
 	case 3:
 		r.APQ = "hash-only"
+	case 4:
+		// the text is sent with the hash of ANOTHER text: must be refused and must not bind
+		// that hash to this text
+		r.APQ = "wrong-hash"
+		r.HashOf = queries[t.Choose(len(queries), "hash-of")]
+		if r.HashOf == r.Query {
+			r.APQ = "register"
+		}
 	}
 	if t.Bool(1, 3, "header") {
 		r.Header = fmt.Sprintf("client-%d", t.Choose(3, "hv"))
 	}
 	if r.RawBody != "" {
-		r.APQ, r.Ext = "", nil // the raw body is all there is
+		r.APQ, r.Ext, r.HashOf = "", nil, "" // the raw body is all there is
 	}
 	if r.Transport == "graphql" {
 		// application/graphql carries only the query text
-		r.OpName, r.Vars, r.HasVars, r.Ext, r.APQ = nil, nil, false, nil, ""
+		r.OpName, r.Vars, r.HasVars, r.Ext, r.APQ, r.HashOf = nil, nil, false, nil, "", ""
 	}
 	if r.Transport == "urlenc" {
 		// the url-encoded transport only sees a JSON document that contains a query member
-		r.APQ = ""
+		r.APQ, r.HashOf = "", ""
 	}
 	return r
 }
@@ -160,6 +169,8 @@ func build(r hreq, ctx context.Context) *http.Request {
 	case "hash-only":
 		ext["persistedQuery"] = map[string]any{"version": 1, "sha256Hash": hashOf(r.Query)}
 		query = ""
+	case "wrong-hash":
+		ext["persistedQuery"] = map[string]any{"version": 1, "sha256Hash": hashOf(r.HashOf)}
 	}
 	if query != "" {
 		m["query"] = query
